@@ -1330,10 +1330,10 @@ int32_t tls13WriteOCSPStatusRequest(ssl_t *ssl,
     {
 #  ifdef USE_SERVER_SIDE_SSL
         /* Server sends the stored OCSPResponse. */
-        psAssert(ssl->keys->OCSPResponseBuf
-                && ssl->keys->OCSPResponseBufLen > 0);
+        psAssert(ssl->OCSPResponseBuf
+                && ssl->OCSPResponseBufLen > 0);
         psDynBufInit(ssl->hsPool, &statReqBuf,
-                4 + ssl->keys->OCSPResponseBufLen);
+                4 + ssl->OCSPResponseBufLen);
 
         /* CertificateStatusType status_type */
         psDynBufAppendByte(&statReqBuf, 0x01);
@@ -1341,8 +1341,8 @@ int32_t tls13WriteOCSPStatusRequest(ssl_t *ssl,
         /* opaque OCSPResponse<1..2^24-1>; */
         psDynBufAppendTlsVector(&statReqBuf,
                 1, (1 << 24) - 1,
-                ssl->keys->OCSPResponseBuf,
-                ssl->keys->OCSPResponseBufLen);
+                ssl->OCSPResponseBuf,
+                ssl->OCSPResponseBufLen);
 #  endif /* ifdef USE_SERVER_SIDE_SSL */
     }
     else
